@@ -34,3 +34,16 @@ package arvados
 // Duration.Duration is a type conversion (time.Duration(d)).
 //@ func Duration.Duration trusted pure
 //@   modifies nothing
+
+// ---------------------------------------------------- C06: index completeness
+// A nil error means: the last line delivered by the scanner was the empty
+// terminator line, no earlier line was empty, every other line had exactly two
+// fields with a parsable mtime, and one entry was produced per non-empty line.
+//@ func KeepService.index property C06 safety -bounds
+//@   ghost lastEmpty bool = false
+//@   ghost nl int = 0
+//@   at assign line#1: set lastEmpty = (line == "")
+//@   at assign line#1: set nl = nl + ite(line == "", 0, 1)
+//@   loop 1: invariant sawEOF == lastEmpty && len(entries) == nl
+//@   ensures result1 == nil ==> sawEOF && lastEmpty && len(result0) == nl
+//@   calls append#1: requires len(fields) == 2 && !sawEOF
